@@ -123,6 +123,12 @@ def perturb_line(case, sign):
     pos = {"C": [1], "R": [1, 2], "T": [1], "S": [1], "SR": [1, 2]}.get(f[0])
     if pos is None and f[0] in ("QC", "QF"):
         pos = {"n": [2], "r": [2, 3]}.get(f[1], [])
+    if pos is not None and f[0] in ("QC", "QF") and f[1] == "f":
+        # a fraction input w,n,d,err: moved through its recorded error
+        w, n, d, err = f[2].split(",")
+        val = Fraction(int(w)) + (Fraction(int(n), int(d)) if int(d) else 0) + num(err)
+        f[2] = ",".join([w, n, d, qtok(num(err) + sign * REL * abs(val))])
+        return " ".join(f)
     if not pos:
         return None
     for i in pos:
